@@ -104,22 +104,28 @@ def run_property(prop, tier, seed, replay_file=None):
                 all_new.append((v, p))
             all_listed += listed
             continue
-        if name.startswith("ids:"):
-            # C02 "ids are distinct for distinct spans": ids are a random per-thread prefix plus a counter, so only
-            # many threads can show a clash; the recorded ids go through Abs's Ids clause (TraceAbs)
-            n = int(name[4:])
-            d = os.path.join(E.OUT, "replay", prop + "-ids")
+        if name.split(":")[0] in ("ids", "burst", "burstc"):
+            # whole-run observations of the real library, each decided by one clause of Abs (TraceAbs):
+            #   ids:N     C02 "ids are distinct for distinct spans": ids are a random per-thread prefix plus a counter,
+            #             so only many threads can show a clash (Ids)
+            #   burst:N   C01 "at the latest when a flush() called afterwards returns" with N commands backlogged on one
+            #             queue and no cycle in between; burstc: cancelable, the spans finished on another thread (Burst)
+            mode, n = name.split(":")[0], int(name.split(":")[1])
+            d = os.path.join(E.OUT, "replay", prop + "-" + mode)
             os.makedirs(d, exist_ok=True)
             trace = os.path.join(d, "trace.ndjson")
-            r = subprocess.run([E.HBIN, "ids", "--threads", str(n), "--out", trace], stdout=subprocess.PIPE, stderr=subprocess.PIPE, text=True, timeout=600)
+            cmd = [E.HBIN, "ids", "--threads", str(n), "--out", trace] if mode == "ids" else \
+                  [E.HBIN, "burst", "--spans", str(n), "--out", trace] + (["--cancelable", "--cross"] if mode == "burstc" else [])
+            r = subprocess.run(cmd, stdout=subprocess.PIPE, stderr=subprocess.PIPE, text=True, timeout=600)
             if r.returncode != 0:
-                raise E.ToolError("ids harness failed: %s" % r.stderr[-1000:])
-            viols, consumed = E.validate(trace, prop + "-ids", parts=1)
+                raise E.ToolError("%s harness failed: %s" % (mode, r.stderr[-1000:]))
+            viols, consumed = E.validate(trace, prop + "-" + mode, parts=1)
             new, listed = E.classify(viols, prop, known)
             tot["runs"] += consumed
             per_instance.append(dict(instance=name, states=0, transitions=0, depth=0, emitted=1, replayed=1, validated=consumed, steering_misses=0, tlc_wall_s=0,
                                      model_violates=False, timed_out=False, other_property_violations=0, shuffled=0, threads=n))
-            E.log("%s: the ids given to 3 spans on each of %d short-lived threads validated (non-zero, pairwise distinct)" % (name, n))
+            E.log("%s: %s validated" % (name, ("the ids given to 3 spans on each of %d short-lived threads (non-zero, pairwise distinct)" % n) if mode == "ids"
+                                            else ("a backlog of %d finished spans on one queue, then one flush()" % n)))
             for v in new:
                 vdir = os.path.join(E.OUT, prop)
                 os.makedirs(vdir, exist_ok=True)
@@ -171,7 +177,7 @@ def run_property(prop, tier, seed, replay_file=None):
         # schedule of the many that end in the same state (DESIGN.md section 14)
         interleaves = c.get("MaxCycles", 0) > 0 or len(c.get("threads", [1])) > 1 or c.get("MaxFlush", 0) > 0
         nsh = opts.get("shuffle", (2 if tier == "quick" else 8) if (emit == "terminal" and interleaves and c.get("ready", True) and c.get("enabled", True)) else 0)
-        if nsh:
+        if nsh and behs:
             # the same programs under random schedules over the stops the real code makes
             rnd = random.Random(seed + 7)
             full = [b for b in behs if not b.get("prefix")]
@@ -191,9 +197,13 @@ def run_property(prop, tier, seed, replay_file=None):
             ", MODEL VIOLATES" if r["violated"] else "", ", timed out" if r["timed_out"] else ""))
         if r.get("errors"):
             raise E.ToolError("TLC reported errors on %s: %s" % (name, r["errors"][:3]))
+        if r.get("stuck"):
+            raise E.ToolError("the model of %s has a dead end (invariant NoStuck): behaviours through it are never printed" % name)
         tot["states"] += r["distinct"]
         tot["transitions"] += r["states"]
         trace, st = E.replay(behs, c, prop + "-" + name, seed)
+        if st.get("gave_up") and prop != "C07":
+            raise E.ToolError("the harness hung in more than 50 runs of %s (calls that do not return are C07's business: run ./check C07)" % name)
         viols, consumed = E.validate(trace, prop + "-" + name, parts=8)
         new, listed = E.classify(viols, prop, known)
         tot["behaviours"] += len(behs)
